@@ -236,8 +236,10 @@ CHECKS = {
        'ever reported a UID as \\Recent; at most one read-write selection per UID, never a read-only one, never claimed and '
        'still stored, first read-write selector gets all unclaimed and every message no selection was ever told is \\Recent, RECENT '
        'numbers equal the \\Recent messages in the view, STORE cannot change it. Also over two mailboxes (SELECT/EXAMINE of either, COPY '
-       'to either) and from the pre-state "a session has the mailbox selected and another party delivered into it".',
-  note=TRUST + 'Selections are kept alive by their connection state (no GC timing). Outside: maildir new/ directory.',
+       'to either) and from the pre-state "a session has the mailbox selected and another party delivered into it". Maildir: the real '
+       'claim_recent / Maildir.claim_new on an in-memory directory tree, any subset of 2-3 (quick) / 2-4 (thorough) messages in new/, any '
+       'record order: \\Recent for exactly those.',
+  note=TRUST + 'Selections are kept alive by their connection state (no GC timing). Outside: several maildir sessions (each has its own selected set).',
   technique='bounded model checking by symbolic execution of the real session layer (z3), ghost ownership map'),
  'C19': dict(
   text='(a) the real ManageSieveConnection.run on a scripted transport: each of 10 command forms with a symbolic script name, before and '
